@@ -6,7 +6,7 @@
    Scope / Object helpers against go/ast's own source. *)
 From Coq Require Import List String ZArith NArith Bool.
 Import ListNotations.
-From DV Require Import Model.ObjGraph Proofs.GraphProofs Gen.ResolveSrc.
+From DV Require Import Model.ObjGraph Proofs.GraphProofs Proofs.CopyProofs Gen.ResolveSrc.
 Local Open Scope string_scope.
 Local Open Scope list_scope.
 
@@ -33,6 +33,32 @@ Theorem C18_isomorphism_check_is_sound :
        map fst (s_objs sa) = map fst (s_objs sd) /\
        (forall i n o n' o', nth_error (s_objs sa) i = Some (n, o) -> nth_error (s_objs sd) i = Some (n', o') -> nget mo o = Some o')).
 Proof. exact iso_check_sound. Qed.
+
+(* The memoised copy (decorateObject / decorateScope, restoreObject / restoreScope: allocate the copy,
+   record it in the map, then copy the fields) of EVERY well-formed graph -- any size, any cycles,
+   any roots -- terminates within fuel = number of objects and scopes + 1, is accepted by the check
+   above, and contains a copy of every root.  (Cases/C18_cases.v: mismatch_graph_wf = [] -- the
+   parser's and the decorator's real graphs are well formed; mismatch_graph = [] -- the model's copy
+   covers the same objects and scopes as the real one.) *)
+Theorem C18_memoised_copy_is_accepted :
+  forall src mn fuel roots,
+  wf_srcb src = true -> (List.length (g_objs src) + List.length (g_scopes src) < fuel)%nat ->
+  let st := copy_all src mn fuel roots in
+  iso_check src (c_out st) (c_mo st) (c_ms st) mn = true /\
+  forall w, In w roots -> root_copied src st w.
+Proof. intros src mn fuel roots H. apply memoised_copy_accepted. apply wf_srcb_sound. exact H. Qed.
+
+(* hence the copy is an isomorphism in the sense of the first theorem: shared objects stay shared,
+   distinct ones stay distinct *)
+Corollary C18_memoised_copy_keeps_sharing :
+  forall src mn fuel roots,
+  wf_srcb src = true -> (List.length (g_objs src) + List.length (g_scopes src) < fuel)%nat ->
+  let st := copy_all src mn fuel roots in
+  forall a1 a2 d, nget (c_mo st) a1 = Some d -> nget (c_mo st) a2 = Some d -> a1 = a2.
+Proof.
+  intros src mn fuel roots H Hf st. destruct (C18_memoised_copy_is_accepted src mn fuel roots H Hf) as [Hc _].
+  exact (proj1 (iso_check_sound _ _ _ _ _ Hc)).
+Qed.
 
 (* dst.NewPackage, resolve, declare and the Scope / Object helpers are go/ast's text with the
    package renamed and positions removed (the position argument of p.error / p.errorf dropped;
@@ -61,3 +87,5 @@ Proof. vm_compute. split; reflexivity. Qed.
 
 Print Assumptions C18_isomorphism_check_is_sound.
 Print Assumptions C18_newpackage_is_goasts.
+Print Assumptions C18_memoised_copy_is_accepted.
+Print Assumptions C18_memoised_copy_keeps_sharing.
